@@ -8,7 +8,7 @@ import time
 
 from . import evlog, instr_mp
 
-NOPROG = ("get_call", "get_empty", "is_set", "is_set_call")
+NOPROG = ("get_call", "get_empty", "is_set", "is_set_call", "shared_read")
 
 
 def analyse(recs):
@@ -76,9 +76,9 @@ def all_blocked(recs):
         elif k == "put_full":
             state[p] = None
         elif k == "get_call":
-            state[p] = ("get", r["q"])
+            state[p] = ("get", r["q"], r.get("to", 1) is not None)
         elif k == "get_empty":
-            state[p] = ("get", r["q"])
+            state[p] = ("get", r["q"], True)
         elif k == "is_set":
             pass
         elif k == "get_ret":
@@ -110,7 +110,7 @@ def all_blocked(recs):
         else:
             if p in state and k not in NOPROG:
                 state[p] = None
-    if owner is None or eset or running or len(live) < 2:
+    if owner is None or running or len(live) < 2:
         return None
     pending_put = collections.Counter(s[1] for p, s in state.items() if p in live and s and s[0] == "put")
     why = []
@@ -119,6 +119,8 @@ def all_blocked(recs):
         if not s:
             return None
         if s[0] == "get":
+            if eset and s[2]:
+                return None  # a timed poll: the process will wake up, see the raised flag and leave
             if filled[s[1]] > 0:
                 return None
             if pending_put[s[1]] and not (maxsize.get(s[1], 0) and filled[s[1]] >= maxsize[s[1]]):
@@ -131,8 +133,34 @@ def all_blocked(recs):
                 return None
         else:
             return None
-        why.append("%s:%s(%s)" % ("owner" if p == owner else "worker", s[0], s[1]))
-    return "every live process is blocked: " + ", ".join(sorted(why)[:8])
+        why.append("%s:%s%s(%s)" % ("owner" if p == owner else "worker", "untimed-" if s[0] == "get" and not s[2] else "", s[0], s[1]))
+    return "every live process is blocked%s: " % (" (shutdown flag raised)" if eset else "") + ", ".join(sorted(why)[:8])
+
+
+def polls_after_shutdown(recs, limit=8):
+    """a worker that keeps polling an EMPTY queue although it has seen the shutdown flag raised: under the protocol a worker
+    leaves after at most two empty polls once the flag is up (one may have started before). Returns a description or None."""
+    seen_true = collections.Counter()
+    empties = collections.Counter()
+    filled = collections.Counter()
+    exited = set()
+    for r in recs:
+        k, p = r["k"], r["pid"]
+        if k == "put_ret":
+            filled[r["q"]] += 1
+        elif k == "get_ret":
+            filled[r["q"]] -= 1
+            empties[p] = 0
+        elif k == "is_set" and r.get("v"):
+            seen_true[p] += 1
+        elif k == "get_empty" and seen_true[p] and filled[r["q"]] <= 0:
+            empties[p] += 1
+        elif k == "proc_exit":
+            exited.add(p)
+    bad = [p for p, n in empties.items() if n >= limit and p not in exited]
+    if bad:
+        return "%d worker(s) keep polling an empty queue after having seen the shutdown flag raised (%d empty polls)" % (len(bad), max(empties[p] for p in bad))
+    return None
 
 
 def stuck_predicate(recs, kind):
@@ -147,6 +175,10 @@ def stuck_predicate(recs, kind):
     if ab:
         return dict(progress=st["progress"], live=len(st["live"]), owner_last=(st["last"].get(st["owner"]) or ("?",))[0], why=ab)
     lo_ = st["last"].get(st["owner"])
+    if lo_ and lo_[0] == "join_call" and st["event_set"]:
+        pa = polls_after_shutdown(recs)
+        if pa:
+            return dict(progress=st["progress"], live=len(st["live"]), owner_last="join_call", why=pa)
     if lo_ and lo_[0] == "event_set" and all(st["last"].get(p, ("?",))[0] == "is_set_call" for p in st["live"]):
         # Event.set / Event.is_set take the event's internal lock for microseconds (30 ms under profile slow_isset); if the
         # owner has called set() and every live worker has called is_set() and nobody returns, the lock is held by a dead process
